@@ -52,14 +52,25 @@ def body_html(blocks) -> str:
         elif t == "tbl":
             rows = b[1]
             ncols = max(len(r) for r in rows)
+            # in tables of three or more columns (and every second smaller shape) an empty cell right of a non-empty one is
+            # the covered part of a horizontal merge: HTML writes ONE cell with colspan="2" for both grid positions
+            merge = ncols >= 3 or (len(rows) + ncols) % 2 == 0
+
+            def cells(row, tag):
+                out_ = []
+                for j, cell in enumerate(row):
+                    if merge and j > 0 and not cell and row[j - 1]:
+                        continue
+                    span = ' colspan="2"' if merge and cell and j + 1 < len(row) and not row[j + 1] else ""
+                    out_.append(f"<{tag}{span}>{body_html(cell)}</{tag}>")
+                return "".join(out_)
             if len(rows) % 2 == 0:
                 # HTML5-style table: unclosed <col> in a colgroup, header cells, thead / tbody sections
-                head = "<tr>" + "".join(f"<th>{body_html(cell)}</th>" for cell in rows[0]) + "</tr>"
-                rest = "".join("<tr>" + "".join(f"<td>{body_html(cell)}</td>" for cell in row) + "</tr>" for row in rows[1:])
+                head = "<tr>" + cells(rows[0], "th") + "</tr>"
+                rest = "".join("<tr>" + cells(row, "td") + "</tr>" for row in rows[1:])
                 out.append("<table><colgroup>" + "<col>" * ncols + f"</colgroup><thead>{head}</thead><tbody>{rest}</tbody></table>")
             else:
-                out.append("<table>" + "".join("<tr>" + "".join(f"<td>{body_html(cell)}</td>" for cell in row) + "</tr>"
-                                               for row in rows) + "</table>")
+                out.append("<table>" + "".join("<tr>" + cells(row, "td") + "</tr>" for row in rows) + "</table>")
         else:
             raise ValueError(t)
     return "\n".join(out)
